@@ -291,8 +291,10 @@ def _reject(name):
     raise ValueError('not strict JSON: ' + name)
 
 
-def line_flags(frame):
-    """the two implementation-side tests of the statement, per emitted line"""
+def line_flags(frame, check_strict=True):
+    """the two implementation-side tests of the statement, per emitted line; strictness of the data part is tested
+    only when a real frappy layer (the real Dispatcher and datatypes) produced the data: what a stub dispatcher hands
+    over is the harness's own input"""
     try:
         text = frame.decode('utf-8')
         utf8 = True
@@ -300,7 +302,7 @@ def line_flags(frame):
         return [False, True]
     data = (text.rstrip('\n').split(' ', 2) + ['', ''])[2]
     strict = True
-    if data != '':
+    if data != '' and check_strict:
         try:
             json.loads(data, parse_constant=_reject)
         except Exception:
@@ -331,7 +333,11 @@ def run_impl(case):
     if disp['kind'] == 'stub':
         d = StubDispatcher(disp['plan'])
     else:
-        d = RecordingDispatcher(make_real_node(disp.get('nan', False)).dispatcher)
+        node = make_real_node(disp.get('nan', False))
+        if disp.get('ts'):
+            # a time stamp handed in from outside (proxy / sea modules relay the remote node's), here not finite
+            node.secnode.modules['m'].announceUpdate('value', 2.0, None, float(disp['ts']))
+        d = RecordingDispatcher(node.dispatcher)
     d.sock = sock
     srv = ServerStub(d)
     with contextlib.redirect_stdout(io.StringIO()):
@@ -388,7 +394,7 @@ def evaluate(ctx, cases):
         utf8, js = tables[s]
         reqs.append({'p': 'C07', 'k': 'serve', 'chunks': c['chunks'], 'utf8': utf8, 'json': js, 'script': im['script']})
         reqs.append({'p': 'C07', 'k': 'judge', 'stream': hx(s), 'outs': [hx(o) for o in im['outs']],
-                     'flags': [line_flags(o) for o in im['outs']]})
+                     'flags': [line_flags(o, c['disp']['kind'] == 'real') for o in im['outs']]})
     ans = ctx.driver.batch(reqs)
     out = []
     for i, (c, im, s) in enumerate(zip(cases, impls, streams)):
@@ -626,7 +632,7 @@ def signature(ev):
         return 'C07:one_reply_per_line:count'
     if clause == 'reply_fits':
         k = bad['k']
-        replies = [o for o in ev['impl']['outs'] if obs_frame(o)['a'] not in (hx(b'_'), hx(b'update'), hx(b'log'))]
+        replies = [o for o in ev['impl']['outs'] if obs_frame(o)['a'] not in (hx(b'_'), hx(b'update'), hx(b'log'), hx(b'error_update'))]
         rep = obs_frame(replies[k]) if k < len(replies) else None
         if rep and bytes.fromhex(rep['a']).startswith(b'error_'):
             return 'C07:reply_fits:error-reply'
@@ -635,6 +641,8 @@ def signature(ev):
         data = (ev['impl']['outs'][bad['i']].strip().split(b' ', 2) + [b'', b''])[2]
         import re
         unquoted = re.sub(rb'"(\\.|[^"\\])*"', b'""', data)
+        if re.search(rb'"": ?-?(NaN|Infinity)\}', unquoted):
+            return 'C07:strict_json:nonfinite-timestamp'     # the qualifier {"t": NaN}
         return 'C07:strict_json:' + ('nan-token' if re.search(rb'NaN|Infinity', unquoted) else 'other')
     if clause == 'valid_utf8':
         return 'C07:valid_utf8'
@@ -709,6 +717,8 @@ def run(ctx):
         real = rng.random() < 0.2
         stream = gen_stream(rng, real, big)
         disp = {'kind': 'real', 'nan': rng.random() < 0.1} if real else {'kind': 'stub', 'plan': gen_plan(rng)}
+        if real and rng.random() < 0.1:
+            disp['ts'] = rng.choice(['nan', 'inf', '-inf'])
         for _ in range(2 if len(stream) < 3000 else 1):
             cases.append(case_of(segment(rng, stream), disp))
 
